@@ -274,6 +274,25 @@ def h_pow_kinds(ctx, which, D, P):
                 for d in range(D):
                     ctx.eq(Z[d, p, i], ref[d], 'z[%d,%d,%d]' % (d, p, i))
         return
+    elif which in ('negbase_complex_poly', 'posbase_complex_poly'):
+        # real scalar base (negative: log on the principal complex branch), COMPLEX polynomial exponent:
+        # decided on the float build, reference exp(log(b) * z) by composition
+        if ctx.mode == 'sym':
+            ctx.fact(True, 'complex polynomial exponent: decided on the float build')
+            ctx.eq(S.const(0), S.const(0), 'z')
+            return
+        import cmath
+        b = -2.0 if which == 'negbase_complex_poly' else 2.5
+        Zc = np.array([[[complex(X[d, p, i], 0.3 * (d + 1) - 0.2 * i) for i in range(2)] for p in range(P)] for d in range(D)])
+        w = plain((b ** algopy.UTPM(Zc.copy())).data)
+        Lb = cmath.log(complex(b))
+        for p in range(P):
+            for i in range(2):
+                M = [Lb * Zc[d, p, i] for d in range(D)]
+                ref = lib.compose([cmath.exp(M[0])] * D, M, D)
+                for d in range(D):
+                    ctx.eq(w[d, p, i], ref[d], '(%s ** z)[%d,%d,%d]' % (b, d, p, i))
+        return
     else:
         raise KeyError(which)
     Z = plain(z.data)
@@ -366,7 +385,7 @@ def units(tier, seed):
     for op in ('mul', 'div'):
         add('utpm %s utpm/(),()/D17,P1' % op, 'h_binop', op=op, lkind='utpm', rkind='utpm', lshape=(), rshape=(), D=17, P=1)
         add('utpm %s= utpm/(2,),(2,)/D17,P1' % op, 'h_binop', op=op, lkind='utpm', rkind='utpm', lshape=(2,), rshape=(2,), D=17, P=1, form='inplace')
-    for which in ('uint8_base', 'int8_base', 'float32_base', 'float16_base', 'int16_base', 'bigint_base', 'pycomplex_exp', 'npcomplex_exp'):
+    for which in ('uint8_base', 'int8_base', 'float32_base', 'float16_base', 'int16_base', 'bigint_base', 'pycomplex_exp', 'npcomplex_exp', 'negbase_complex_poly', 'posbase_complex_poly'):
         add('pow/%s' % which, 'h_pow_kinds', which=which, D=D + 1, P=P)
     for which in ('pyfloat_base', 'pyint_base', 'npfloat_exp', 'npint_exp', 'negint_exp', 'pyint_exp0', 'pyint_exp1', 'pyint_exp2', 'pyint_exp3', 'pyint_exp4', 'pyint_exp5', 'pyint_exp7'):
         add('pow/%s' % which, 'h_pow_kinds', which=which, D=D + 1, P=P)
